@@ -1,10 +1,9 @@
 (* Property C06 — symbolic equality, hashing and ordering obey their algebraic laws.
    Only statements and [exact]; proofs live in Proofs/Compare*.v.
-   Domain: [cmp_ok tbl cu f v] = values of the property's quantifier (None, MISSING, bool, int, finite float, str,
+   Domain: [cmp_ok tbl f v] = values of the property's quantifier (None, MISSING, bool, int, finite float, str,
    list / pg.List, tuples whose items are primitives of the one comparable family [f], dict / pg.Dict with unique
-   str or int keys in any insertion order, objects of any classes whose __qualname__ is not a rank string and
-   names one class ([cu]: __qualname__ -> class; two different classes sharing a __qualname__ are the open finding
-   witnessed by C06_same_qualname_refuted), and all nestings).  [tbl] is the type-order table regenerated from the current base.py. *)
+   str or int keys in any insertion order, objects of any classes whose __qualname__ is not a rank string (different classes sharing a
+   __qualname__ included: the class uid orders them), and all nestings).  [tbl] is the type-order table regenerated from the current base.py. *)
 From PG Require Import Common.Tactics Gen.TypeOrder Model.Compare
   Proofs.CompareOrder Proofs.CompareLink Proofs.CompareLaws Proofs.CompareHash Proofs.CompareInstance.
 From Coq Require Import Sorting.Sorted Sorting.Permutation.
@@ -13,15 +12,15 @@ Theorem C06_table_ok : ranks_ok tbl = true.
 Proof. exact generated_table_ok. Qed.
 Print Assumptions C06_table_ok.
 
-Theorem C06_eq_refl : forall cu f a, cmp_ok tbl cu f a = true -> eq a a = true.
+Theorem C06_eq_refl : forall f a, cmp_ok tbl f a = true -> eq a a = true.
 Proof. exact (eq_refl_law tbl generated_table_ok). Qed.
 Print Assumptions C06_eq_refl.
 
-Theorem C06_eq_sym : forall cu f a b, cmp_ok tbl cu f a = true -> cmp_ok tbl cu f b = true -> eq a b = eq b a.
+Theorem C06_eq_sym : forall f a b, cmp_ok tbl f a = true -> cmp_ok tbl f b = true -> eq a b = eq b a.
 Proof. exact (eq_sym_law tbl generated_table_ok). Qed.
 Print Assumptions C06_eq_sym.
 
-Theorem C06_eq_trans : forall cu f a b c, cmp_ok tbl cu f a = true -> cmp_ok tbl cu f b = true -> cmp_ok tbl cu f c = true ->
+Theorem C06_eq_trans : forall f a b c, cmp_ok tbl f a = true -> cmp_ok tbl f b = true -> cmp_ok tbl f c = true ->
   eq a b = true -> eq b c = true -> eq a c = true.
 Proof. exact (eq_trans_law tbl generated_table_ok). Qed.
 Print Assumptions C06_eq_trans.
@@ -31,9 +30,9 @@ Proof. exact ne_law. Qed.
 Print Assumptions C06_ne_is_negation.
 
 (* equal values have equal hash pre-images (whenever pg.hash is defined on both: plain list / dict are unhashable) *)
-Theorem C06_eq_hash : forall cu f a b ha hb, cmp_ok tbl cu f a = true -> cmp_ok tbl cu f b = true ->
+Theorem C06_eq_hash : forall f a b ha hb, cmp_ok tbl f a = true -> cmp_ok tbl f b = true ->
   eq a b = true -> hpre tbl a = Ok ha -> hpre tbl b = Ok hb -> ha = hb.
-Proof. intros cu f a b ha hb. exact (eq_hash_law tbl cu f a b ha hb). Qed.
+Proof. intros f a b ha hb. exact (eq_hash_law tbl f a b ha hb). Qed.
 Print Assumptions C06_eq_hash.
 
 (* the "same pre-image" bit compared with hash(a) == hash(b) in the correspondence is Leibniz equality *)
@@ -42,25 +41,25 @@ Proof. exact hterm_eqb_eq. Qed.
 Print Assumptions C06_hash_bit_is_equality.
 
 Theorem C06_hash_defined : forall v, hashable v = true -> exists h, hpre tbl v = Ok h.
-Proof. exact (hash_total_law tbl (fun _ => 0%N)). Qed.
+Proof. exact (hash_total_law tbl). Qed.
 Print Assumptions C06_hash_defined.
 
-Theorem C06_lt_total_never_raises : forall cu f a b, cmp_ok tbl cu f a = true -> cmp_ok tbl cu f b = true ->
+Theorem C06_lt_total_never_raises : forall f a b, cmp_ok tbl f a = true -> cmp_ok tbl f b = true ->
   exists r, lt tbl a b = Ok r.
 Proof. exact (lt_total_law tbl generated_table_ok). Qed.
 Print Assumptions C06_lt_total_never_raises.
 
-Theorem C06_trichotomy : forall cu f a b, cmp_ok tbl cu f a = true -> cmp_ok tbl cu f b = true ->
+Theorem C06_trichotomy : forall f a b, cmp_ok tbl f a = true -> cmp_ok tbl f b = true ->
   exists x z, lt tbl a b = Ok x /\ lt tbl b a = Ok z /\ exactly_one x (eq a b) z.
 Proof. exact (trichotomy_law tbl generated_table_ok). Qed.
 Print Assumptions C06_trichotomy.
 
-Theorem C06_lt_trans : forall cu f a b c, cmp_ok tbl cu f a = true -> cmp_ok tbl cu f b = true -> cmp_ok tbl cu f c = true ->
+Theorem C06_lt_trans : forall f a b c, cmp_ok tbl f a = true -> cmp_ok tbl f b = true -> cmp_ok tbl f c = true ->
   lt tbl a b = Ok true -> lt tbl b c = Ok true -> lt tbl a c = Ok true.
 Proof. exact (lt_trans_law tbl generated_table_ok). Qed.
 Print Assumptions C06_lt_trans.
 
-Theorem C06_lt_irrefl : forall cu f a, cmp_ok tbl cu f a = true -> lt tbl a a = Ok false.
+Theorem C06_lt_irrefl : forall f a, cmp_ok tbl f a = true -> lt tbl a a = Ok false.
 Proof. exact (lt_irrefl_law tbl generated_table_ok). Qed.
 Print Assumptions C06_lt_irrefl.
 
@@ -69,22 +68,22 @@ Proof. exact (gt_law tbl). Qed.
 Print Assumptions C06_gt_is_flip.
 
 (* consistent with equality: equal values are interchangeable on either side of lt *)
-Theorem C06_lt_respects_eq : forall cu f a b c, cmp_ok tbl cu f a = true -> cmp_ok tbl cu f b = true -> cmp_ok tbl cu f c = true ->
+Theorem C06_lt_respects_eq : forall f a b c, cmp_ok tbl f a = true -> cmp_ok tbl f b = true -> cmp_ok tbl f c = true ->
   eq a b = true -> lt tbl a c = lt tbl b c /\ lt tbl c a = lt tbl c b.
 Proof.
-  intros cu f a b c Ha Hb Hc E. split.
-  - exact (lt_eq_compat_l tbl generated_table_ok cu f a b c Ha Hb Hc E).
-  - exact (lt_eq_compat_r tbl generated_table_ok cu f a b c Ha Hb Hc E).
+  intros f a b c Ha Hb Hc E. split.
+  - exact (lt_eq_compat_l tbl generated_table_ok f a b c Ha Hb Hc E).
+  - exact (lt_eq_compat_r tbl generated_table_ok f a b c Ha Hb Hc E).
 Qed.
 Print Assumptions C06_lt_respects_eq.
 
 (* sorted(values, key=cmp_to_key(lt-based three-way comparison)) never raises and returns a permutation in which
    no element is less than an earlier one; the nat component is the original position *)
-Theorem C06_sort_never_raises : forall cu f (l : list (nat * pv)),
-  Forall (fun x => cmp_ok tbl cu f (snd x) = true) l ->
+Theorem C06_sort_never_raises : forall f (l : list (nat * pv)),
+  Forall (fun x => cmp_ok tbl f (snd x) = true) l ->
   exists l', sort_by tbl l = Ok l' /\ Permutation l l' /\
              StronglySorted (fun x y => lt tbl (snd y) (snd x) = Ok false) l'.
-Proof. intros cu f l. exact (sort_law tbl generated_table_ok cu f nat l). Qed.
+Proof. intros f l. exact (sort_law tbl generated_table_ok f nat l). Qed.
 Print Assumptions C06_sort_never_raises.
 
 (* classes with use_symbolic_comparison: == and != are sym_eq, i.e. pg.eq / pg.ne *)
@@ -92,10 +91,3 @@ Theorem C06_object_operators : forall a b, (exists n u e, a = PObj n u e) -> op_
 Proof. exact op_eq_law. Qed.
 Print Assumptions C06_object_operators.
 
-(* Open finding: for two different classes that share a __qualname__ pg.lt recurses forever (RecursionError) both
-   ways although pg.eq is False: neither less, equal nor greater. *)
-Theorem C06_same_qualname_refuted :
-  cmp_ok tbl (fun _ => 0%N) FNum twin_a = true /\ cmp_ok tbl (fun _ => 1%N) FNum twin_b = true /\
-  eq twin_a twin_b = false /\ lt tbl twin_a twin_b = Err ERecursion /\ lt tbl twin_b twin_a = Err ERecursion.
-Proof. exact same_qualname_refuted. Qed.
-Print Assumptions C06_same_qualname_refuted.
